@@ -3,6 +3,8 @@ import SkVerif.Model.Naive
 import SkVerif.Model.Trend
 import SkVerif.Model.History
 import SkVerif.Model.Adapter
+import SkVerif.Model.Exog
+import SkVerif.Model.Theta
 import SkVerif.Drv.Parse
 namespace SkVerif.Drv.C11
 open SkVerif SkVerif.Drv SkVerif.Naive
@@ -24,8 +26,31 @@ def parseOInt? (s : String) : Option (Option Int) :=
 def showRows (rows : List (List Int)) : String :=
   if rows.isEmpty then "-" else ";".intercalate (rows.map showIntList)
 
+/-- exogenous rows: `r1;r2;…`, each a list of values (`-` = no rows) -/
+def parseRows? (s : String) : Option (List (List (Option Rat))) :=
+  if s == "-" then some [] else (s.splitOn ";").mapM parseORatList?
+
 def handle (toks : List String) : String :=
   match toks with
+  | ["naivex", xs, xp, st, sp, wl, origin, y, fh, rel] =>
+    match parseRows? xs, parseBool? xp, parseStrategy? st, parseInt? sp, parseOInt? wl, parseInt? origin, parseORatList? y,
+          parseIntList? fh, parseBool? rel with
+    | some xs, some xp, some st, some sp, some wl, some origin, some y, some fh, some rel =>
+      showSeries (Exog.fitPredictX (some xs) xp st sp wl y origin (.ints fh) rel)
+    | _, _, _, _, _, _, _, _, _ => "bad-op"
+  | ["theta", opts, origin, n, fh, rel, dense, drift, seas, pi] =>
+    match Adapter.parseArgs opts, parseInt? origin, parseNat? n, parseIntList? fh, parseBool? rel, parseORatList? dense,
+          parseRatList? drift, parseRatList? seas, parseBool? pi with
+    | some opts, some origin, some n, some fh, some rel, some dense, some drift, some seas, some pi =>
+      let sm : Int → Val := fun i => if i < 0 then none else (dense[i.toNat]?).getD none
+      let ctor := Adapter.thetaCtor opts
+      if Adapter.smRejects ctor then s!"E:value ctor={Adapter.showArgs ctor}"
+      else
+        let out := match Theta.predict sm n origin (.ints fh) rel drift seas (Adapter.get opts "deseasonalize" == "T") pi (fun _ => 0) with
+          | .error e => showErr e
+          | .ok (p, _) => showSeries (.ok p)
+        s!"{out} ctor={Adapter.showArgs ctor} fitkw={Adapter.showArgs (Adapter.esFit opts)}"
+    | _, _, _, _, _, _, _, _, _ => "bad-op"
   | ["naive", st, sp, wl, origin, y, fh, rel] =>
     match parseStrategy? st, parseInt? sp, parseOInt? wl, parseInt? origin, parseORatList? y,
           parseIntList? fh, parseBool? rel with
